@@ -45,7 +45,8 @@ BASE = {
 }
 BOUNDS = {
     "quick": {"line_cap": 3, "sections": ["P"], "optsets": [0, 1, 2], "task_budget_s": 1200},
-    "thorough": {"line_cap": 4, "sections": ["P", "C"], "optsets": [0, 1, 2, 3], "task_budget_s": 3300},
+    "thorough": {"line_cap": 4, "sections": ["P", "C"], "optsets": [0, 1, 2, 3], "task_budget_s": 3300,
+                 "caps": {"P/0": 4, "P/1": 4, "default": 3}},
 }
 ASSUMPTIONS = [
     "one symbolic header line (every printable-ASCII string up to the capacity) in ~W, ~P or ~C of the listed base file; lines the first read rejects are not accepted inputs",
@@ -175,8 +176,14 @@ def tasks(tier):
         fams += [("P", 1, "dupnull"), ("P", 0, "unitlonger"), ("P", 1, "nounit")]
     else:
         fams += [("P", oi, bs) for oi in (0, 1) for bs in ("dupnull", "unitlonger", "nounit")]
-    return [{"name": "%s/opts%d/%s/%s" % (sec, oi, bs, "-".join(map(str, sp))), "params": {"section": sec, "opts": oi, "cap": b["line_cap"], "base": bs, "split": sp}, "weight": sp[0]}
-            for sec, oi, bs in fams for sp in splits(b["line_cap"])]
+    def cap_of(sec, oi, bs):
+        caps = b.get("caps")
+        if not caps:
+            return b["line_cap"]
+        return caps.get("%s/%d" % (sec, oi), caps["default"]) if bs == "std" else caps["default"]
+
+    return [{"name": "%s/opts%d/%s/%s" % (sec, oi, bs, "-".join(map(str, sp))), "params": {"section": sec, "opts": oi, "cap": cap_of(sec, oi, bs), "base": bs, "split": sp}, "weight": sp[0]}
+            for sec, oi, bs in fams for sp in splits(cap_of(sec, oi, bs))]
 
 
 # bases in which the index curve's unit is longer than the unit of STRT/STOP/STEP (or those have none) and
